@@ -194,7 +194,8 @@ Inductive dsop :=
 | DReplaceAxis (r : axref) (nx : axis)
 | DRenameKey (old new : string)
 | DRenameKeys (m : list (string * string))
-| DInit (l : list (string * darr)).      (* Dataset({k: array ...}): align (outer join), then assign in order *)
+| DInit (l : list (string * darr))      (* Dataset({k: array ...}): align (outer join), then assign in order *)
+| DAppendAxis (ax : axis).             (* ds.axes.append(Axis): an axis no variable uses yet *)
 
 Definition ds_init (l : list (string * darr)) : dset * res unit :=
   match align (map snd l) Outer None false false with
@@ -204,6 +205,12 @@ Definition ds_init (l : list (string * darr)) : dset * res unit :=
                           | Ok _ => ds_setitem (fst p) (snd p) (fst acc)
                           | Err e => acc end) (combine (map fst l) al) (ds_empty, Ok tt)
   end.
+
+(* ds.axes.append(axis): refused when the name is there already (Axes.append) *)
+Definition ds_append_axis (ax : axis) (s : dset) : dset * res unit :=
+  if mem_str (aname ax) (ds_dims s) then (s, Err ValueError)
+  else ({| heap := hset (heap s) (nextid s) ax; dsax := dsax s ++ [nextid s]; dvars := dvars s;
+           dsattrs := dsattrs s; nextid := S (nextid s) |}, Ok tt).
 
 Definition ds_step (s : dset) (o : dsop) : dset * res unit :=
   match o with
@@ -219,6 +226,7 @@ Definition ds_step (s : dset) (o : dsop) : dset * res unit :=
   | DRenameKey o n => ds_rename_key o n s
   | DRenameKeys m => ds_rename_keys m s
   | DInit l => ds_init l
+  | DAppendAxis ax => ds_append_axis ax s
   end.
 Definition ds_run (ops : list dsop) (s : dset) : dset := fold_left (fun st o => fst (ds_step st o)) ops s.
 
